@@ -303,7 +303,7 @@ func c27Fit(res *run.Result, vs *c27Viols, t string, w, h, px, py float64, tl *g
 				// ratio, the inner-box accessors by the content's
 				mag = "padding-changes-aspect-class"
 			}
-			vs.addMag("C27.inner-smaller-than-content", "C27.inner-smaller-than-content:"+t+":"+in.how+":"+mag, d(), def)
+			vs.addMag("C27.inner-smaller-than-content", "C27.inner-smaller-than-content:"+t+":"+mag+":"+in.how, d(), def)
 		}
 		if b.Width >= w+px-eps && b.Height >= h+py-eps {
 			res.Inc("fit_padded_also_fits")
@@ -314,7 +314,7 @@ func c27Fit(res *run.Result, vs *c27Viols, t string, w, h, px, py float64, tl *g
 			if ex <= 1 {
 				mag = "by-at-most-1px"
 			}
-			vs.addMag("C27.inner-outside-box", "C27.inner-outside-box:"+t+":"+in.how+":"+mag, d(), ex)
+			vs.addMag("C27.inner-outside-box", "C27.inner-outside-box:"+t+":"+mag+":"+in.how, d(), ex)
 		}
 	}
 }
